@@ -239,6 +239,10 @@ func c15Step(maxN int) {
 			sym.Assert(list[i-1].ServiceId < list[i].ServiceId, "list/not-sorted")
 		}
 	}
+	// liveness: whatever the operation was and however it ended, the directory still answers the next
+	// one (an operation that returns with the directory locked is a dead lock finding here)
+	_, err := d.Services()
+	sym.Assert(err == nil, "directory-answers-the-next-operation")
 	sym.Reach("step-done")
 }
 
